@@ -42,6 +42,9 @@ func (b Bound) text() string {
 		return "$two[*]"
 	case "none":
 		return "$two[*] ? (@ > 99)"
+	case "guarded0":
+		// index 0, guarded by an exists() whose operand has its own subscript and a further step
+		return "0 ? (exists($two[0].type()))"
 	case "inner_last":
 		return "$[0][last]"
 	case "inner_first":
@@ -129,6 +132,8 @@ func evalBound(b Bound, arr []any) (int64, bool) {
 		return n - 1 - b.I, true
 	case "lastplus":
 		return n - 1 + b.I, true
+	case "guarded0":
+		return 0, true
 	case "inner_last", "inner_first":
 		// $[0] must be (lax: or behave as) an array whose selected element is one number
 		if len(arr) == 0 {
@@ -282,7 +287,7 @@ func subscriptBounds(full bool) []Bound {
 		Bound{Kind: "last"}, Bound{Kind: "lastminus", I: 1}, Bound{Kind: "lastminus", I: 2}, Bound{Kind: "lastplus", I: 1})
 	if full {
 		bs = append(bs, Bound{Kind: "str"}, Bound{Kind: "big"}, Bound{Kind: "negbig"}, Bound{Kind: "multi"}, Bound{Kind: "none"}, Bound{Kind: "null"}, Bound{Kind: "bool"},
-			Bound{Kind: "num", F: 2147483647.5}, Bound{Kind: "num", F: 2147483648.5}, Bound{Kind: "num", F: 1e300}, Bound{Kind: "inner_last"}, Bound{Kind: "inner_first"})
+			Bound{Kind: "num", F: 2147483647.5}, Bound{Kind: "num", F: 2147483648.5}, Bound{Kind: "num", F: 1e300}, Bound{Kind: "inner_last"}, Bound{Kind: "inner_first"}, Bound{Kind: "guarded0"})
 	}
 	return bs
 }
@@ -322,7 +327,7 @@ func TestC14(t *testing.T) {
 	t.Run("exhaustive", func(t *testing.T) {
 		b := ev.enum(t)
 		full := subscriptBounds(true)
-		small := []Bound{{Kind: "int", I: 0}, {Kind: "int", I: 1}, {Kind: "int", I: 5}, {Kind: "last"}, {Kind: "int", I: -1}, {Kind: "str"}}
+		small := []Bound{{Kind: "int", I: 0}, {Kind: "int", I: 1}, {Kind: "int", I: 5}, {Kind: "last"}, {Kind: "int", I: -1}, {Kind: "str"}, {Kind: "guarded0"}}
 		var lists [][]SubSpec
 		for _, x := range full {
 			lists = append(lists, []SubSpec{{From: x}})
